@@ -34,7 +34,7 @@ def run(tier, seed):
     run_contracts(pack, [(C01_assembly.fg_to_dae('C09'), None, C01_assembly.replay_fg_to_dae), (C01_assembly.store_adder_setter('C09'), None, C01_assembly.replay_store_adder_setter)])
     # the order in which one residual round consults the discrete components, and that each component is consulted once
     from contracts import fn_sequence as Q
-    run_contracts(pack, [(Q.pflow_fg_update('C09'),), (Q.tds_fg_update('C09'),), (Q.call_models('C09'),), (Q.model_l_update_var('C09'),),
+    run_contracts(pack, [(Q.pflow_fg_update('C09'),), (Q.tds_fg_update('C09'),), (Q.call_models('C09'),), (Q.model_l_update_var('C09'), None, Q.replay_l_update_var),
                          (Q.model_l_check_eq('C09', True),), (Q.model_l_check_eq('C09', False),)] +
                   [(Q.delegation('C09', n, m),) for n, m in (('l_update_var', 'l_update_var'), ('l_update_eq', 'l_check_eq'))])
     # the quantity behind a limiter block with an output gain stays inside the scaled limits: all three regimes of GainLimiter
